@@ -2,5 +2,5 @@
 """tools/setdet.py <seed name> <text>  -- record which check detected a seeded change"""
 import json, sys
 p = "/verif/seeded/%s/meta.json" % sys.argv[1]
-d = json.load(open(p)); d["detected_by"] = sys.argv[2]; d["round"] = d.get("round", {"a": 1, "b": 1, "c": 2, "d": 2}.get(sys.argv[1][-1], 3))
+d = json.load(open(p)); d["detected_by"] = sys.argv[2]; d["round"] = d.get("round", {"a": 1, "b": 1, "c": 2, "d": 2, "e": 3, "f": 3}.get(sys.argv[1][-1], 4))
 json.dump(d, open(p, "w"), indent=1)
